@@ -37,8 +37,7 @@ COMPONENTS = {
     "stub": ["CAN backend (SimBus) with fault-injecting transport", "can.Notifier", "time/queue in canopen.sdo.client",
              "SDO server (RefSdoServer)"],
 }
-PROBES = ["client-abort-0x05040000", "queue-flushed", "block-upload-retransmit", "block-download-retransmit",
-          "indistinguishable", "followup-ok"]
+PROBES = ["client-abort-0x05040000", "queue-flushed", "block-upload-retransmit", "indistinguishable", "followup-ok"]
 
 KINDS = ("exp-dl", "exp-ul", "seg-dl", "seg-dl-undeclared", "seg-ul", "blk-dl", "blk-ul",
          # the same against the repository's own SdoServer (LocalNode on a second Network)
@@ -544,7 +543,11 @@ def scenario(ctx):
         i2, s2 = (index, sub) if ctx.choice(2, "sameobj") == 0 else (0x4000 + ctx.choice(16, "i2"), 1 + ctx.choice(4, "s2"))
         plan.begin()
         n2 = len(srv.commits)
+        q_before = node.sdo.responses
+        stale_waiting = len(q_before.items) > 0
         exc2, res2, data2 = _do_transfer(ctx, w, k2, l2, i2, s2, 201 + ctx.choice(50, "salt2"))
+        if stale_waiting and node.sdo.responses is not q_before:
+            ctx.probe("queue-flushed")      # a stale frame was waiting and the client discarded it before its request
         plan.end()
         _judge_undisturbed(ctx, w, k2, exc2, res2, data2, i2, s2, n2, "followup",
                            " after %s with %s@%s (outcome %s)" % (kind, fault if fired else "no fault", st, outcome))
